@@ -185,7 +185,9 @@ def enc_module(m):
 
 
 def model_case(schema, order=None, opts="-"):
-    order = order if order is not None else [m["name"] for m in schema]
+    # Process visits the modules in the order of their keys, then the submodules likewise
+    order = order if order is not None else (sorted(m["name"] for m in schema if m["belongs"] is None)
+                                             + sorted(m["name"] for m in schema if m["belongs"] is not None))
     return " ".join(["resolve", opts] + enc_list(order, lambda n: [hx(n)]) + enc_list(schema, enc_module))
 
 
